@@ -5,7 +5,7 @@ from harness.props import c09
 RULE = ("databases with the same label text in several kinds and directions, labels with spaces/punctuation/empty flavour/extra "
         "parts, generic and specific variants, case variants; every record's dumped label is looked up in every section with "
         "random.choice driven over every candidate index, plus near-miss texts (case change, trailing blank, generic<->specific); "
-        "label-based impersonate_tcp/mtu is checked to use a record of that label, kind and direction; non-trivial = >= 1 candidate")
+        "label-based impersonate_tcp/mtu (base packets SYN / SYN+ACK also with ECE, CWR, PSH, URG, NS set) is checked to use a record of that label, kind and direction; non-trivial = >= 1 candidate")
 ASSUMPTIONS = ["random.choice is replaced by an indexable stub (the real draw is uniform over the same candidate list)"]
 EXHAUSTIVE = {"random.choice index over all candidates of every lookup": True}
 SECS = ["mtu", "tcp_req", "tcp_resp", "http_req", "http_resp"]
@@ -102,7 +102,9 @@ def impl_init():
                 if "ok" in res and si in (0, 1, 2) and res["ok"]:
                     state["pick"] = len(res["ok"]) - 1
                     state["chosen"] = None
-                    base = IP() / TCP(flags="S" if si != 2 else "SA", seq=1, options=[("MSS", 1460)])
+                    import zlib
+                    fl = (["S", "S", "SE", "SEC", "SP", "SU", "SEN"] if si != 2 else ["SA", "SA", "SAE", "SAP", "SAEC", "SAU"])
+                    base = IP() / TCP(flags=fl[zlib.crc32((q + str(len(out))).encode()) % len(fl)], seq=1, options=[("MSS", 1460)])
                     try:
                         if si == 0:
                             impersonate_mtu(base, raw_label=q, database=db)
